@@ -48,7 +48,22 @@ def gen_index(rng, n, kinds=None):
     raise ValueError(k)
 
 
-def gen_selection(rng, n, p):
+def gen_selection(rng, n, p, allow_chain=True):
+    if allow_chain and rng.random() < 0.12:
+        # two or three stacked lazy selections (xarray composes the keys before the backend sees
+        # them): the first may leave few, one or no lines / pixels
+        steps = []
+        for _ in range(rng.choice([2, 2, 3])):
+            which = rng.choice(["rows", "rows", "columns", "both"])
+            step = {}
+            if which in ("rows", "both"):
+                step["rows"] = gen_index(rng, max(n, 1), ["slice", "slice", "negstep", "emptyslice",
+                                                          "int", "arr", "mask", "full"])
+            if which in ("columns", "both"):
+                step["columns"] = gen_index(rng, max(p, 1), ["slice", "slice", "negstep",
+                                                             "emptyslice", "int", "full"])
+            steps.append(step)
+        return {"kind": "chain", "steps": steps}
     c = rng.random()
     if c < 0.55:
         sel = {"kind": "isel"}
@@ -127,6 +142,13 @@ def apply(da, sel):
         return da.sel(rows=slice(a, b))
     if kind == "ellipsis":
         return da[...]
+    if kind == "chain":
+        out = da
+        for step in sel["steps"]:
+            idx = {d: to_indexer(step[d]) for d in ("rows", "columns")
+                   if d in step and d in out.dims}
+            out = out.isel(idx)
+        return out
     raise ValueError(kind)
 
 
@@ -166,6 +188,16 @@ def selected_rows(sel, n):
         return list(range(a - 1, b))
     if kind == "ellipsis":
         return list(range(n))
+    if kind == "chain":
+        # compose on an index vector; anything numpy rejects -> unknown
+        try:
+            rows = np.arange(n)
+            for step in sel["steps"]:
+                if "rows" in step and rows.ndim == 1:
+                    rows = rows[to_indexer(step["rows"])]
+            return [int(x) for x in np.atleast_1d(rows)]
+        except Exception:  # noqa: BLE001
+            return None
     return None
 
 
@@ -209,4 +241,6 @@ def classify(sel, n, p):
         return "vec[" + ",".join(d for d in ("rows", "columns") if d in sel) + "]"
     if kind == "sel":
         return "sel[" + next(iter(sel["rows"])) + "]"
+    if kind == "chain":
+        return "chain[%d]" % len(sel["steps"])
     return kind
